@@ -10,7 +10,7 @@ for id in "${ids[@]}"; do
   if ! patch -p1 -s -d $S < $d/patch.diff > $S/patch.log 2>&1; then
     echo "$id ($prop): PATCH DOES NOT APPLY to the current tree: $(head -3 $S/patch.log | tr '\n' ' ')"; rm -rf $S; continue
   fi
-  out=$(./check $prop --repo $S 2>&1 | grep -v "^WARNING"); rc=$?
+  out=$(PYVC_HARNESS_WALL_S=${PYVC_HARNESS_WALL_S:-300} ./check $prop --repo $S 2>&1 | grep -v "^WARNING"); rc=$?
   viol=$(echo "$out" | grep "^VIOLATION" | sed 's/.*replay=[^ ]*\///; s/\.json.*//' | tr '\n' ' ')
   last=$(echo "$out" | tail -1)
   echo "$id ($prop): $last | caught by: ${viol:-NONE}"
